@@ -392,7 +392,9 @@ fn run_transport(
     let mut clients_to_remove = Vec::new();
     let mut metadata = HashMap::new();
     let mut next_token = START_TOKEN;
-    let mut buffered_pmsgs = VecDeque::with_capacity(buffer_limit);
+    // When there's no limit, let the buffer grow on demand: asking for `usize::MAX` capacity up front panics.
+    let mut buffered_pmsgs = buffer_size.map_or_else(VecDeque::new, VecDeque::with_capacity);
+
 
     loop {
         let _span = trace_span!("transport");
